@@ -61,7 +61,7 @@ META = {
     'C07': _m('history-bfs', T_BFS, 'A reference detector (base instant, counted deadline calls, k, refreshing) decides for every completion whether exactly one replacement must be created; swap, removal and take-over are checked on every state report.', 'DESIGN.md 4/C07'),
     'C08': _m('history-bfs', T_BFS, 'Fallback placement, stand-in stickiness and return-home are checked on every keyed pick of the explored histories, saturated and unsaturated pools.', 'DESIGN.md 4/C08'),
     'C09': _m('history-bfs', T_BFS, 'Round-robin assignment order, waiting only for READY/context end and prompt return are checked over all explored histories (parked picks are threads of the controlled scheduler).', 'DESIGN.md 4/C09'),
-    'C10': _m('schedule-dfs', 'stateless model checking of the implementation: exhaustive DFS over thread interleavings under a controlled scheduler (preemption / delay bounded) with a happens-before (vector clock) race detector evaluated on every explored execution', 'All schedules within the bounds of eleven concurrency drivers (pool: grow-race, pick-done, refresh-race, rr-bind, rr-cancel, fallback-pick, resolve-pick, bind-unbind; stream scenarios; gme-update; me-timers) and every pair of pool / MultiEndpoint operations of the pair harnesses are executed on code whose every field, map and slice-element access is instrumented; any two conflicting accesses not ordered by happens-before in any explored execution are reported as the pair of access sites.', 'DESIGN.md 4/C10', 'Bounded: drivers, preemption/deviation/delay bounds as reported. Memory inside gRPC/protobuf is not tracked (slice elements of the library's own slices are); extra happens-before edges are only ever added (can hide, never invent a race). Trusted: instrumenter, shims, fakes.'),
+    'C10': _m('schedule-dfs', 'stateless model checking of the implementation: exhaustive DFS over thread interleavings under a controlled scheduler (preemption / delay bounded) with a happens-before (vector clock) race detector evaluated on every explored execution', 'All schedules within the bounds of eleven concurrency drivers (pool: grow-race, pick-done, refresh-race, rr-bind, rr-cancel, fallback-pick, resolve-pick, bind-unbind; stream scenarios; gme-update; me-timers) and every pair of pool / MultiEndpoint operations of the pair harnesses are executed on code whose every field, map and slice-element access is instrumented; any two conflicting accesses not ordered by happens-before in any explored execution are reported as the pair of access sites.', 'DESIGN.md 4/C10', 'Bounded: drivers, preemption/deviation/delay bounds as reported. Memory inside gRPC/protobuf is not tracked (slice elements of the own slices of the library are); extra happens-before edges are only ever added (can hide, never invent a race). Trusted: instrumenter, shims, fakes.'),
     'C11': _m('input-enum', 'bounded-exhaustive (small-scope) input enumeration on the real function against an independent reference implementation', 'Every message shape with up to 3 (thorough: 4) type constructors, every value of a small menu and every locator of up to 3 segments is evaluated on the real extractor; totality on all of them, agreement with the reference wherever the statement defines the result.', 'DESIGN.md 4/C11', 'Bounded scope as reported; the reference extractor and the list of unspecified cases are the trusted base.'),
     'C12': _m('schedule-dfs', 'stateless model checking of the implementation: exhaustive DFS over thread interleavings under a controlled scheduler (iterative preemption bounding), per-execution oracles', 'Every interleaving within the preemption bound of SendMsg/RecvMsg/CloseSend/Header/Trailer/Context calls, stream creation success/failure and context cancellation is executed on the real wrapper; lost wake-ups show as blocked threads, panics are caught per thread.', 'DESIGN.md 4/C12', 'Bounded: preemption/deviation bounds and thread programs as reported. Trusted: instrumenter, sync/context shims (Cond wake-up order FIFO as in the runtime), fake streamer.'),
     'C13': _m('history-bfs', T_BFS, 'The real multiEndpoint is driven through every history up to the depth bound for every (recovery, delay) class and compared with an independent reference after every transition.', 'DESIGN.md 4/C13'),
